@@ -11,7 +11,7 @@ ASSUME = [common.TRUSTED, "MetaLeaseSet is specified in the layout this library 
           "only well-formed encodings of library-supported key types are demanded to be accepted"]
 META = {
     "level": "model_checking",
-    "technique": "independent TLA+ encoder/decoder pair (Enc.tla/Structs.tla) model-checked on the Small instance; TLC-computed encodings and model values replayed into parsers and constructors; accessor projections and produced bytes validated by TLC field by field",
+    "technique": "independent TLA+ encoder/decoder pair (Enc.tla/Structs.tla) model-checked on the Small instance; TLC-computed encodings and model values replayed into parsers and constructors; accessor projections and produced bytes validated by TLC field by field; heap machine MC_Fresh (negative controls: append onto a view of the input, template shared by the copies handed out) sampled by edited struct copies and by again-twins of every constructor vector; query stability on every constructed value",
     "text": ("The oracle is an independent TLA+ implementation of the layout, not the library's helpers, so a change applied consistently to the "
              "read and write side (fields swapped, key moved to the other end of its field, endianness) is seen. Every structure's fields are "
              "compared for every shape in the enumerated space (type pairs x certificate kinds x counts 0..17 x flag words x option shapes x "
@@ -22,6 +22,8 @@ BUILD = ("cert", "keycert", "ident", "raddr", "lease", "offsig", "ls2", "mapping
 
 
 def check(run):
+    # who owns the memory behind a result: the machine behind the kept-result chains, the "again" twins and the edited struct copies
+    common.mc_fresh(run, controls=("onto-field", "template"))
     common.mc_structs(run, negative_control=False)
     common.gen_structs(run)
     for fam in BUILD:
